@@ -86,14 +86,14 @@ func runC20Core(c *Ctx) {
 						return false
 					}
 					k, isC := st.Val.(*ssa.Const)
-					return isC && pathHasSuffix(pathOf(st.Addr), "synced") && k.Value != nil && k.Value.String() == "false"
+					return isC && pathOf(st.Addr) == fn.Signature.Results().At(0).Name() && k.Value != nil && k.Value.String() == "false"
 				}))
 			entry := emptyState()
 			entry.add(errNil) // a named result starts out nil
 			res := fl.Analyze(fn, entry)
 			c.noteFlow(fl)
 			n := c.Require("C20.O2", res, CallTo("rec.(*LogWriter).flushBlock"), "flushBlock only while the accumulated error is nil", []string{errNil})
-			n2 := c.Require("C20.O2", res, MethodOn("Write", "w.w"), "tail write only while the accumulated error is nil", []string{errNil})
+			n2 := c.Require("C20.O2", res, MethodOn("Write", "recv.w"), "tail write only while the accumulated error is nil", []string{errNil})
 			n3 := c.Require("C20.O2", res, CallTo("rec.(*LogWriter).syncWithLatency"), "fsync only while the accumulated error is nil", []string{errNil})
 			n4 := c.Require("C20.O2", res, MethodOn("pop", "pendingSyncs"), "waiters popped only after the fsync decision", []string{"sync-decided"})
 			if n == 0 || n2 == 0 || n4 == 0 {
@@ -119,7 +119,7 @@ func runC20Core(c *Ctx) {
 		)
 		for _, in := range instrs(fn, StoreThrough(c.Field("C20.O3", "rec.syncSlot.err"))) {
 			v := in.(*ssa.Store).Val
-			ok := pathOf(v) == "err"
+			ok := pathOf(v) == ParamName(fn, 3)
 			c.Ob("C20.O3", fn, "slot error is pop's err parameter", c.P.Pos(in.Pos()), ok, map[bool]string{true: "", false: "value stored into the waiter's error slot is " + pathOf(v)}[ok])
 		}
 	}
@@ -128,7 +128,7 @@ func runC20Core(c *Ctx) {
 		for _, in := range instrs(fn, DynCall("externalSyncQueueCallback")) {
 			n++
 			args := in.(*ssa.Call).Common().Args
-			ok := len(args) >= 2 && pathOf(args[len(args)-1]) == "err"
+			ok := len(args) >= 2 && pathOf(args[len(args)-1]) == ParamName(fn, 2)
 			c.Ob("C20.O3", fn, "external callback receives pop's err", c.P.Pos(in.Pos()), ok, "")
 		}
 		if n == 0 {
@@ -149,12 +149,12 @@ func c20CloseInternal(c *Ctx, rule string) {
 		return
 	}
 	fl := NewFlow(c.P).
-		Edge("sync|skip", ZeroGuard("w.s")).
+		Edge("sync|skip", ZeroGuard("recv.s")).
 		Edge("sync|skip", NonZeroGuard("flusher.err"))
 	c.Chain(rule, fn, fl,
 		Step{Name: "<-f.closed", M: RecvFrom("closed")},
 		Step{Name: "syncWithLatency", M: CallTo("rec.(*LogWriter).syncWithLatency"), Also: "sync|skip"},
-		Step{Name: "w.c.Close", M: MethodOn("Close", "w.c"), Need: []string{"sync|skip", "did:<-f.closed"}},
+		Step{Name: "w.c.Close", M: MethodOn("Close", "recv.c"), Need: []string{"sync|skip", "did:<-f.closed"}},
 	)
 	for _, in := range instrs(fn, DynCall("externalSyncQueueCallback")) {
 		args := in.(*ssa.Call).Common().Args
